@@ -434,6 +434,28 @@ func (fr *Frame) sourceVar(name string, env *SpecEnv) (Val, bool) {
 			}
 		}
 	}
+	if n == 0 {
+		// a local declared as a big.Int VALUE (var tmp big.Int) lives in one allocation; the name denotes its address,
+		// so that val(tmp) reads the number
+		for _, b := range fr.fn.Blocks {
+			for _, ins := range b.Instrs {
+				al, ok := ins.(*ssa.Alloc)
+				if !ok || al.Comment != name {
+					continue
+				}
+				if pt, ok := al.Type().Underlying().(*types.Pointer); !ok || !isBigInt(pt.Elem()) {
+					continue
+				}
+				if _, defined := fr.env[al]; !defined {
+					continue
+				}
+				if found != al {
+					found = al
+					n++
+				}
+			}
+		}
+	}
 	if n == 1 {
 		if env.over != nil {
 			if v, ok := env.over[found]; ok {
